@@ -41,6 +41,9 @@ Proof. exact prep_refines. Qed.
 Theorem C01_snippet_arithmetic_safe_between_positions : forall f p1 p2 rest, good_at p1 (p2 ++ rest) = true ->
   snippet_safe (p1 ++ p2 ++ rest) (span_of f (pos p1) (pos (p1 ++ p2))).
 Proof. exact snippet_safe_between. Qed.
+(* ... a span of no width (the end of a directive that ends too early, the end of a file that leaves a region open) is safe wherever it stands ... *)
+Theorem C01_snippet_of_no_width_safe_everywhere : forall f p rest, snippet_safe (p ++ rest) (span_of f (pos p) (pos p)).
+Proof. exact snippet_safe_zero_width. Qed.
 (* ... and no token starts there: every token and lexical error of every block of every text (CRLF or not), and every
    stretch from the start of one token to the end of a later one (what the parser and the validators point at), is safe *)
 Theorem C01_snippets_of_lexed_spans_never_underflow : forall (f : list N) (pre body post : list N) (fuel : nat) (attr : bool) (ts : list ptok) (er : option plexerr) (a : bool),
